@@ -6,7 +6,9 @@
   statement about one decode of `encode m` for maps satisfying `RepMap`) and Props/C02Decoded.lean (record sections of
   every decoded map), and the map-level step "(a)": Props/C02FinalParts.lean (sort / breaks / velocity ingredients),
   Props/C02Final.lean (`Finalized`, `roundtrip_objects_rep_core`, `roundtrip_objects_rep_partial`), Props/C02FinalDecoded.lean
-  (`decoded_finalized`; Props/C02FinalUnordered.lean: its chronological hypothesis is needed), Props/C02FinalMania.lean (taiko / mania, all modes) and Props/C02FinalToy.lean (non-vacuity).
+  (`decoded_finalized`; Props/C02FinalUnordered.lean: its chronological hypothesis is needed), Props/C02FinalMania.lean (taiko / mania, all modes), Props/C02FinalToy.lean (non-vacuity),
+  Props/C02FinalCurves.lean (gap (e): the computed curves of re-decoded sliders, `roundtrip_curves_partial`) and
+  Props/C02FinalScroll.lean (gap (d): `ScrollDrivesSv` of decoded taiko / mania maps, `decoded_scrollDrivesSv`; false for out-of-order timing lines).
   All in namespace `Rosu.C02`.
 -/
 import RosuModel.Props.C02Slider
@@ -23,3 +25,7 @@ import RosuModel.Props.C02FinalDecoded
 import RosuModel.Props.C02FinalMania
 import RosuModel.Props.C02FinalToy
 import RosuModel.Props.C02FinalUnordered
+import RosuModel.Props.C02FinalCurves
+import RosuModel.Props.C02FinalScroll
+import RosuModel.Props.C02FinalScrollToy
+import RosuModel.Props.C02FinalScrollExact
